@@ -2134,6 +2134,10 @@ func (s *swamp) SaveFunction(t treasure.Treasure, guardID guard.ID) treasure.Tre
 	// and the treasure is totally new
 	if existedTreasureObj == nil {
 
+		// the treasure is classified as new: the change flags collected so far are consumed by
+		// this save (must happen while the caller's guard is still held, see the early release below)
+		t.ResetChangeFlags(guardID)
+
 		// If this key was recently deleted (e.g. via ShiftExpired), the old delete-marked
 		// treasure may still be sitting in the write buffer. We must remove it first,
 		// otherwise beacon.Add silently drops the new treasure (key already exists)
@@ -2223,6 +2227,11 @@ func (s *swamp) SaveFunction(t treasure.Treasure, guardID guard.ID) treasure.Tre
 				s.addToValueBeacon(t)
 			}
 		}
+
+		// the modification is classified: the change flags are consumed by this save, so that a later
+		// Save of the untouched treasure reports StatusSame (must happen while the caller's guard is
+		// still held, see the early release below)
+		t.ResetChangeFlags(guardID)
 
 		// the treasure is modified, we need to add it to the swamp and write it to the chroniclerInterface
 		s.treasuresWaitingForWriter.Add(t)
